@@ -46,6 +46,17 @@ func (c05) Gen(rt *rapid.T, thorough bool) any {
 		s.Slow = rapid.SampledFrom([]int{0, 0, 3}).Draw(rt, "slow5")
 		s.Prefill = rapid.SampledFrom([]int{0, 1, 2, s.BufferSize / 2, s.BufferSize - 1, s.BufferSize, s.BufferSize + 1, s.BufferSize + 5}).Draw(rt, "occupancy")
 		genProducers(rt, s, 3, 12, 3)
+		if s.Via == "refresh" && rapid.IntRange(0, 3).Draw(rt, "handle_only") == 0 {
+			s.HandleOnly = true
+			for p := range s.Producers {
+				for i := range s.Producers[p] {
+					s.Producers[p][i].Raw = true
+					if s.Producers[p][i].Size < 0 {
+						s.Producers[p][i].Size = 2
+					}
+				}
+			}
+		}
 		if rapid.IntRange(0, 5).Draw(rt, "slow_sink") == 0 {
 			// a sink that takes (simulated) time per item: flushing a backlog takes as long as
 			// it takes, and Stop has to wait for all of it
@@ -457,7 +468,7 @@ func (c05) runAsync(x *Exec, s *AsyncScn) {
 	if s.Prefill > 0 {
 		x.Sim.Spawn("producer-prefill", func() {
 			for i := 0; i < s.Prefill; i++ {
-				pre = append(pre, sys.submit(99, i, AOp{Lvl: "ERROR"}, nil))
+				pre = append(pre, sys.submit(99, i, AOp{Lvl: "ERROR", Raw: s.HandleOnly, Size: 2}, nil))
 			}
 		})
 	}
